@@ -76,14 +76,17 @@ class Model:
 class Scenario:
     """One node; many timelines, each on a fresh connection."""
 
-    def __init__(self, run, node_idle, node_dwa, peer_idle, peer_dwa, direction, busy=False):
+    def __init__(self, run, node_idle, node_dwa, peer_idle, peer_dwa, direction, busy=False, late=False):
         from vf.simnet.world import World, REALM
         from vf.simnet import msgs as M
         self.M, self.REALM = M, REALM
         self.run = run
         self.params = dict(node_idle=node_idle, node_dwa=node_dwa, peer_idle=peer_idle, peer_dwa=peer_dwa,
-                           direction=direction, busy=busy)
+                           direction=direction, busy=busy, late=late)
         self.busy = busy
+        # late: the peer under test is registered (add_peer, with its own timers) only after the node has been
+        # running and has served a connection of another peer - its settings take precedence all the same
+        self.late = late and direction == "in"
         self.busy_sp = None
         self.busy_n = 0
         timers = {}
@@ -95,7 +98,10 @@ class Scenario:
         if direction == "out":
             pc.update(persistent=True, reconnect_wait=1)
         peers = [pc] + ([{"name": "busy.verif.example", "timers": {"idle_timeout": 10 ** 6}}] if busy else [])
-        self.w = World(dict(peers=peers, apps=[{"tag": "a4", "id": 4, "peers": ["peer1.verif.example"]}],
+        self.late_timers = timers
+        if self.late:
+            peers = [{"name": "early.verif.example", "ip": "10.1.0.8", "timers": {"idle_timeout": 10 ** 6}}] + peers[1:]
+        self.w = World(dict(peers=peers, apps=[{"tag": "a4", "id": 4, "peers": [peers[0]["name"]]}],
                             node={"idle_timeout": node_idle, "dwa_timeout": node_dwa, "cea_timeout": 10 ** 6,
                                   "cer_timeout": 10 ** 6}))
         self.h = self.w.h
@@ -117,6 +123,18 @@ class Scenario:
                 h.settle()
                 b.drain()
                 self.busy_sp = b
+            if self.late:
+                e = h.inbound(ip="10.1.0.8", port=59998)
+                h.settle()
+                e.send(M.cer("early.verif.example", self.REALM, auth=[4], hbh=1, e2e=1))
+                h.settle()
+                e.drain()
+                e.close()
+                h.settle()
+                self.w.late_peer("peer1.verif.example", ip="10.1.0.1", timers=self.late_timers)
+                self.w.late_app("late4", 4, ["peer1.verif.example"])
+                self.run.cov["scenarios_with_peer_added_at_run_time"] = \
+                    self.run.cov.get("scenarios_with_peer_added_at_run_time", 0) + 1
         if self.params["direction"] == "in":
             self.gen += 1
             p = h.inbound(ip="10.1.0.1", port=50000 + self.gen % 9000)
@@ -302,7 +320,8 @@ def run_shard(spec):
             i = 0
             for gi, (ni, nd, pi, pd) in enumerate(grids):
                 for direction in ("in", "out") if gi < 3 else ("in",):
-                    sc = Scenario(run, ni, nd, pi, pd, direction, busy=(gi == 0 and direction == "in"))
+                    sc = Scenario(run, ni, nd, pi, pd, direction, busy=(gi == 0 and direction == "in"),
+                                  late=(gi in (2, 4, 6)))
                     try:
                         L = spec["length"] if gi < 2 else spec["length"] - 1
                         for evs in itertools.product(["none", "traffic", "dwa"], repeat=L):
@@ -321,7 +340,8 @@ def run_shard(spec):
                 ni, nd = rng.choice([1, 2, 5, 30, 60]), rng.choice([1, 2, 5, 30, 60])
                 pi = rng.choice([None, None, 1, 2, 5, 30, 60])
                 pd = rng.choice([None, None, 1, 2, 5, 30, 60])
-                sc = Scenario(run, ni, nd, pi, pd, rng.choice(["in", "out"]), busy=rng.random() < 0.3)
+                sc = Scenario(run, ni, nd, pi, pd, rng.choice(["in", "out"]), busy=rng.random() < 0.3,
+                              late=rng.random() < 0.35)
                 try:
                     big = max(sc.idle, sc.dwa)
                     for _ in range(40):
@@ -392,7 +412,7 @@ def replay(obj):
                 "coverage": run.cov}
     p = obj["params"]
     sc = Scenario(run, p["node_idle"], p["node_dwa"], p["peer_idle"], p["peer_dwa"], p["direction"],
-                  busy=p.get("busy", False))
+                  busy=p.get("busy", False), late=p.get("late", False))
     try:
         run.timeline(sc, [tuple(s) for s in obj["steps"]])
     finally:
